@@ -10,6 +10,7 @@
 import FlacModel.Model.Basic
 import FlacModel.Gen.Tables
 import FlacModel.Gen.Crc
+import FlacModel.Gen.Kernels
 
 namespace Flac
 open Gen
@@ -197,7 +198,8 @@ def readRiceOne (k : Nat) : P Int := fun b =>
   | .ok (msb, b1) =>
     match readU k b1 with
     | .error e => .error e
-    | .ok (lsb, b2) => .ok (unfoldRice k msb lsb, b2)
+    | .ok (lsb, b2) =>
+      if decRiceOverflow msb k then .error (.err "ResidualOverflow") else .ok (unfoldRice k msb lsb, b2)
 
 /-- one partition of `n` residuals; `pbits` = 4 (RICE) or 5 (RICE2) -/
 def readPartition (pbits n : Nat) : P Partition := fun b =>
